@@ -34,7 +34,10 @@ var c04Pieces = struct{ schemes, hosts, seps, segs, queries, frags []string }{
 		"example.com@evil.com", "evil.com@example.com", "evil.com%2f.example.com", "evil.com%25.example.com", "evil.com\\.example.com", "evil.com\\@example.com",
 		"a.example.com", "a.b.example.com", ".example.com", "xn--e1afmkfd.example.com", "evil.com\uff0f.example.com", "evil\u3002example.com", "ex\u00e4mple.com",
 		"evil.com#.example.com", "evil.com?.example.com", "evil.com;.example.com", "evil.com:.example.com", "evil.com:x", "evil.com:80:80", "", "%65vil.com", "evil.com%e4.example.com",
-		"example.com%00", "a b.example.com", "evil.com<.example.com", "app.example.com:8443", "wonderwall"},
+		"example.com%00", "a b.example.com", "evil.com<.example.com", "app.example.com:8443", "wonderwall",
+		// look-alikes of the allowed domains: the dot replaced, a label glued on, case and width variants
+		"example-com", "exampleXcom", "a.example-com", "a.exampleXcom", "example.com.", "example.comx", "xexample.com", "a.xexample.com", "example.co", "a.example.co", "example.com.evil.io",
+		"app-example.com", "appXexample.com", "other-example.com:8443", "a.example.com:443", "a.example.com:8443", "example.com:", "a.example.com:", "EXAMPLE.COM", "a.Example.com", "sso-example.com", "ssoXexample.com"},
 	seps: []string{"/", "/", "/", "//", "///", "\\", "\\\\", "/\\", "\\/", "/./", "/../", "/ /", "/\t/", "/%2f", "/%5c", "/%2F/", "/%5C/", "/.\\", "/..\\", "%2f", "%5c", "/\n/", "/%09/", "/%0a/", "/%2e/", "/%2e%2e/", "/.%2e/", "/;/", "/:/", "/@/"},
 	segs: []string{"", "a", "app", "api", "oauth2", "login", "callback", "evil.com", "example.com", ".", "..", "...", "*", "%", "%zz", "%41", "a b", "a+b", "a%20b", "\u00e5", "%c3%a5", "a:b", ":", "@", "a@b", "a;b=c",
 		"a,b", "=", "&", "'", "(", ")", "!", "[", "]", "~", "$", "^", "|", "{", "}", "`", "<", ">", "\"", "\x7f", "\x00", "\x01", "\x1f", "\xff", "\xc0\xaf"},
@@ -168,6 +171,7 @@ var c04Attacks = []string{
 	"https://evil.com\\.example.com", "https://evil.com\\@a.example.com", "https://evil.com%2f.example.com", "https://evil.com%25.example.com", "https://evil.com%5c.example.com", "https://evil.com;.example.com",
 	"https://evil.com:.example.com", "https://evil.com:80.example.com", "https://evil.com:@a.example.com", "https://a.example.com@evil.com", "https://a.example.com:x@evil.com", "https://evil.com\uff0f.example.com",
 	"https://evil.com\u3002example.com", "https://evil\u3002com.example.com", "https://[::1].example.com", "https://[evil.com].example.com", "https://EXAMPLE.COM/", "https://A.example.com/", "http://a.example.com/", "ftp://a.example.com/",
+	"https://example-com/", "https://exampleXcom/", "https://a.example-com/x", "https://a.exampleXcom/x", "https://xexample.com/", "https://example.comx/", "https://app-example.com/", "https://a.example.com:8443/x", "https://a.example.com:/x",
 	"https:a.example.com", "https:/a.example.com", "https:///a.example.com", "//a.example.com", "//a.example.com/x", "/\\a.example.com", "https://a.example.com\\@evil.com", "https://a.example.com%40evil.com",
 	"https://a.example.com/../../x", "https://a.example.com/.//evil.com", "https://a.example.com//evil.com", "https://a.example.com/\\evil.com", "https://a.example.com?x#y", "https://a.example.com#x?y", "https://a.example.com:0/", "https://a.example.com:65536/",
 	"https://a.example.com:00443/", "https://a.example.com:/", "/sub", "/sub/", "/sub/x", "/sub/../x", "/sub/oauth2/login", "/oauth2/login?redirect=//evil.com", "/x?redirect=https://evil.com", "/x;y", "/x;/y", "/;/evil.com", "/:/evil.com",
